@@ -669,6 +669,50 @@ def run(rec):
                             for chunking in compositions(n, with_empty=False):
                                 case_async(rec, data, cs, chunking, h)
                             rec.case(('d3a', data, d, cs, h))
+    # ---- family LG: sizes around the readers' internal join limit (chunk_size x 128 sync, x 1024 async): beyond it
+    #      read()/read_until() switch to a different collection path; data long enough to cross it, a delimiter
+    #      nowhere / just before / at / just after the limit, then further reads and tell()
+    import falcon.asgi.reader as _ar
+    import falcon.util.reader as _sr
+    mj_sync = getattr(_sr, '_MAX_JOIN_CHUNKS', 128)
+    mj_async = getattr(_ar, '_MAX_JOIN_CHUNKS', 1024)
+    for cs in (1, 2):
+        d = b'X' if cs == 1 else b'XY'
+        for for_async, mjc in ((False, mj_sync), (True, mj_async)):
+            if for_async and rec.mode != 'pure':
+                continue
+            mj = mjc * cs
+            n = mj + 6
+            for dpos in (None, mj - 3, mj - 2, mj - 1, mj, mj + 1):
+                body = bytearray((b'ab' * n)[:n])
+                if dpos is not None:
+                    body[dpos:dpos + len(d)] = d
+                data = bytes(body[:n])
+                hs = []
+                for k in (0, 1):
+                    pre = (('read', k),) if k else ()
+                    for size in (mj - 1, mj, mj + 1, mj + cs, n, n + 5, -1):
+                        hs.append(pre + (('read', size), ('read', 2)))
+                        for consume in (False, True):
+                            hs.append(pre + (('read_until', d, size, consume), ('read', 2)))
+                    hs.append(pre + (('pipe_until', d, False), ('read', 1)))
+                    hs.append(pre + (('peek', -1), ('read_until', d, mj + 1, False)))
+                for h in hs:
+                    idx += 1
+                    if idx % rec.nshards != rec.shard:
+                        continue
+                    if not for_async:
+                        for pattern in (None, (1,), (3,), (mj,)):
+                            for cls, cname in classes:
+                                case_sync(rec, cls, cname, data, n, cs, pattern, h)
+                        rec.case(('lgs', cs, dpos, h))
+                        rec.count('lg.sync_histories')
+                    else:
+                        for c in (1, 7, mj - 1, mj, n):
+                            chunking = tuple([c] * (n // c) + ([n % c] if n % c else []))
+                            case_async(rec, data, cs, chunking, h)
+                        rec.case(('lga', cs, dpos, h))
+                        rec.count('lg.async_histories')
     rec.exhaustive = True
     if rec.shard == 0:
         rec.note('exhaustive: data len <= %d over {a,X,Y}, chunk sizes 1..%d, single-op histories (+final read) over all op shapes; '
@@ -729,12 +773,14 @@ def run(rec):
     rec.floor('sync.history_ended_by_delimiter_error', 5)
     rec.floor('random.sync', 20)
     rec.floor('d3.histories', 100)
+    rec.floor('lg.sync_histories', 100)
     if rec.mode == 'pure':
         rec.floor('mon.async.op.read_until', 100)
         rec.floor('mon.async.op.delimit', 20)
         rec.floor('mon.async.tell', 100)
         rec.floor('async.history_ended_by_delimiter_error', 5)
         rec.floor('random.async', 20)
+        rec.floor('lg.async_histories', 100)
 
 
 def _tuplify(o):
